@@ -265,9 +265,9 @@ def doOvl (t : List String) : String :=
     let assignRest := flags.getLast? == some "1"
     let ocq := oc.map parseHex; let icq := ic.map parseHex; let ivq := iv.map parseHex; let ovq := ov.map parseHex
     let nOut := ovq.length; let nIn := ivq.length
-    let res := overlapInterpolate (arrOf ocq) (arrOf icq) (arrOf ivq) nOut nIn (arrOf ovq) onlyAdd assignRest
-    let mag := overlapInterpolate (arrOf ocq) (arrOf icq) (arrOf (ivq.map absQ)) nOut nIn (arrOf (ovq.map absQ)) onlyAdd assignRest
-    " ".intercalate ((List.range nOut).map fun j => fmq (res j) (absQ (mag j) + absQ (arrOf ovq j)))
+    let res := overlapInterpolateRun (arrOf ocq) (arrOf icq) (arrOf ivq) nOut nIn (arrOf ovq) onlyAdd assignRest
+    let mag := overlapInterpolateRun (arrOf ocq) (arrOf icq) (arrOf (ivq.map absQ)) nOut nIn (arrOf (ovq.map absQ)) onlyAdd assignRest
+    " ".intercalate ((List.range nOut).map fun j => fmq (res.out j) (absQ (mag.out j) + absQ (arrOf ovq j)))
   | _ => "bad"
 
 /-- `arc N Reff imin imax omin omax sampling angular_increment | in…`: ArcCorrection on one row -/
@@ -285,10 +285,11 @@ def doArc (t : List String) : String :=
         floatToRat (reffF * Float.sin ((Float.ofInt (I imin + k) - 0.5) * angF))
       let ocq := arcCorrCoords (I omin) (I omax) sampQ
       let ivq := iv.map parseHex
-      let res := arcCorrectRow (arrOf ocq) (arrOf icq) (arrOf ivq) nOut nIn sampQ
-      let mag := arcCorrectRow (arrOf ocq) (arrOf icq) (arrOf (ivq.map absQ)) nOut nIn sampQ
+      -- (= arcCorrectRow, with the loop run once)
+      let res := overlapInterpolateRun (arrOf ocq) (arrOf icq) (arrOf ivq) nOut nIn (fun _ => 0) false true
+      let mag := overlapInterpolateRun (arrOf ocq) (arrOf icq) (arrOf (ivq.map absQ)) nOut nIn (fun _ => 0) false true
       let maxIn := (ivq.map absQ).foldl max 0
-      " ".intercalate ((List.range nOut).map fun j => fmq (res j) (absQ (mag j) + maxIn))
+      " ".intercalate ((List.range nOut).map fun j => fmq (res.out j / sampQ) (absQ (mag.out j / sampQ) + maxIn))
     | _ => "bad"
   | _ => "bad"
 
